@@ -236,6 +236,9 @@ func EnumCases(tier string) (cases []ImportCase, rule string) {
 				}
 				n := ref.NumPackets(set, devs, il)
 				links := []string{"eth"}
+				if len(devs) == 0 && (ili == 0 || thorough) {
+					links = append(links, "vlan", "qinq")
+				}
 				if len(devs) == 0 {
 					if _, err := (&ref.Capture{Case: ref.Case{Link: "raw"}, Set: set}).LinkType(); err == nil {
 						links = append(links, "raw")
@@ -324,7 +327,7 @@ func EnumCases(tier string) (cases []ImportCase, rule string) {
 		rule += "thorough: <=1 deviation x every permitted interleaving x {one file; cut into two files at every position, imported one by one in order and in one call; default renderings also one by one newest first}; " +
 			"2 deviations under the default interleaving as one file; default renderings also with raw IPv4/IPv6 link type; 4 snapshot sets (observed conversation around/after a filler of 11120 closed connections, three files) one by one and in one call. "
 	} else {
-		rule += "quick: default rendering x every permitted interleaving x {eth, raw link} x {one file; cut at every position, imported one by one, one by one newest first, and in one call}; " +
+		rule += "quick: default rendering x every permitted interleaving x {eth, raw link; default interleaving also with one and two 802.1Q tags} x {one file; cut at every position, imported one by one, one by one newest first, and in one call}; " +
 			"every rendering with 1 deviation (default interleaving) x {one file; cut at every position from just before the first to just after the second of the two packets the deviation is about, imported one by one}. "
 	}
 	rule += fmt.Sprintf("Both tiers: default renderings cut into three files whose first two touch (equal timestamps across the first cut), imported one by one (%d cases; quick: second cut at most 3 packets after the first, or before the last packet). ", threeTouching)
